@@ -123,6 +123,10 @@ func (x *Exec) birth() string {
 // newRef allocates a fresh non-nil reference.
 func (x *Exec) newRef(st *State, prefix string) string {
 	r := x.vc.Declare(prefix, sortRef)
+	if x.allocHere == nil {
+		x.allocHere = map[string]bool{}
+	}
+	x.allocHere[r] = true // a symbol that denotes an object allocated by this activation
 	x.birth()
 	nn := x.vc.Define("now", sortInt, "(+ "+st.now+" 1)")
 	x.assumeIn(st, and("(> "+r+" 0)", "(= (birth "+r+") "+nn+")"))
